@@ -51,6 +51,15 @@ func (f *Htfs) RealPath(path string) string {
 	return filepath.Join(f.root, abspath)
 }
 
+// Session returns a view of the same filesystem with a working directory of
+// its own, starting at the root.
+func (f *Htfs) Session() *Htfs {
+	return &Htfs{
+		root: f.root,
+		cwd:  string(filepath.Separator),
+	}
+}
+
 func (f *Htfs) Cwd() string {
 
 	return f.cwd
